@@ -18,10 +18,10 @@ type renderer struct {
 	sen    bool
 	spaced bool // random whitespace and newlines between tokens
 	// escape styles
-	uEscape   int  // 1 in uEscape non-ASCII BMP runes is written as \uXXXX (0 = never)
-	surrogate bool // astral runes as \uD83D\uDE00 surrogate pairs
-	slash     bool // '/' as \/
-	comments  bool // SEN: // comments
+	uEscape   int    // 1 in uEscape non-ASCII BMP runes is written as \uXXXX (0 = never)
+	surrogate bool   // astral runes as \uD83D\uDE00 surrogate pairs
+	slash     bool   // '/' as \/
+	comments  bool   // SEN: // comments
 	timeWrap  string // times as {wrap: "text"}
 	timeNano  bool   // times as integer nanoseconds
 	b         strings.Builder
